@@ -12,7 +12,10 @@ RULE = ('per (adapter, SCREEN mode, active page): pictures of border / backgroun
         'PAINT STEP / DRAW "P" statements (solid and tiled, with background patterns) with seeds inside, on borders, '
         'on the viewport edge and outside are executed by a real Session; every statement is one case, compared '
         'with the Lean model (final picture of the area) and judged by a breadth-first reference fill over the '
-        'whole page; plus every 3x3 (thorough: also every 4x3 with all seeds and every 4x4 with all non-border seeds) border/'
+        'whole page; PAINT with non-integer seed coordinates (exact halves, .49/.51, negative halves; literals, STEP '
+        'offsets, single/double variables) without and with WINDOW / WINDOW SCREEN under VIEW / VIEW SCREEN / no '
+        'viewport, where the seed pixel is the one PSET addresses for the same coordinate expression (a fixed '
+        'family over all fractions and statement forms, then random ones); plus every 3x3 (thorough: also every 4x3 with all seeds and every 4x4 with all non-border seeds) border/'
         'background bitmap through Graphics._flood_fill; non-trivial = the statement changed at least one pixel')
 EXPLANATION = ('theorems (PcbV.Props.C32): for every picture, bounds, seed, attributes and fuel the modelled scanline '
                'fill changes only pixels of the 4-connected non-border region of the seed inside the viewport and '
@@ -22,7 +25,10 @@ EXPLANATION = ('theorems (PcbV.Props.C32): for every picture, bounds, seed, attr
                '(paint_complete, paint_exact); correspondence: model vs Session picture after every PAINT; '
                'oracle: breadth-first fill written from the statement (changed pixels within region and = fill; '
                'complete when the region had no pre-filled pixel)')
-TRUSTED_BASE = ['model PcbV.Model.Paint is a hand transcription of graphics.py _flood_fill/_scanline_until/'
+TRUSTED_BASE = ['the logical-to-physical conversion of the seed (WINDOW scaling, rounding; host floats) is not '
+                'modelled in Lean: the pixel is taken from PSET with the same coordinate expression on a blank '
+                'page, and the flood fill from that pixel is what model and oracle judge',
+                'model PcbV.Model.Paint is a hand transcription of graphics.py _flood_fill/_scanline_until/'
                 '_check_scanline and of framebuffer.py PackedTileBuilder/PlanedTileBuilder',
                 'the harness writes pictures into and reads them from display.pages[apage]._pixels._rows '
                 '(a fraction of the pictures is drawn with PSET instead and must behave the same)',
@@ -263,6 +269,7 @@ class Runner(object):
         self.nattr = self.gfx._num_attr
         self.fg = self.nattr - 1
         self.view = None
+        self.win = None
         self.dead = False
 
     def close(self):
@@ -304,9 +311,20 @@ class Runner(object):
             raise RuntimeError('VIEW %r: %r' % (view, out))
         self.view = view
 
+    def set_window(self, stmt):
+        """`WINDOW ...` statement text, or None to switch the logical window off"""
+        if stmt is None and self.win is None:
+            return
+        out = self.execute(stmt or 'WINDOW')
+        if out.strip():
+            raise RuntimeError('%r: %r' % (stmt, out))
+        self.win = stmt
+
     def put(self, ax, ay, pic, with_pset=False):
         if with_pset:
             saved = self.view
+            if self.win is not None:
+                raise RuntimeError('PSET pictures are not drawn under a WINDOW')
             self.set_view(None)
             for j, row in enumerate(pic):
                 for i, a in enumerate(row):
@@ -352,6 +370,8 @@ def fmt_coord(v):
 
 
 def step_text(st):
+    if 'text' in st:
+        return st['text']
     x, y = st['xy']
     if st['how'] == 'draw':
         return 'DRAW "BM%d,%d P%d,%d"' % (x, y, st['fill'], st['border'])
@@ -373,12 +393,39 @@ def step_text(st):
 def run_case(ctx, r, case, lines, cases, outs, iters_lines):
     """Execute one history on the runner; append model lines / impl replies; judge with the oracle."""
     r.clear()
+    r.set_window(None)
     r.set_view(case['view'])
+    r.set_window(case.get('window'))
     ax, ay, w, h = case['rect']
     pic = [list(bytes.fromhex(case['pix'])[j * w:(j + 1) * w]) for j in range(h)]
-    r.put(ax, ay, pic, with_pset=case.get('pset', False))
     bx0, by0, bx1, by1 = r.bounds()
     ox, oy = r.offset()
+    if case['steps'] and case['steps'][0].get('probe'):
+        # which pixel does this coordinate expression denote?  PSET with the same expression on the blank page
+        st0 = case['steps'][0]
+        for pre in st0.get('pre', []):
+            r.execute(pre)
+        out = r.execute(st0['probe'])
+        hit = [(x, y) for y, row in enumerate(r.rows()) if any(row) for x in range(len(row)) if row[x]]
+        if out.strip() or len(hit) > 1:
+            ctx.count('probe:rejected')
+            r.clear()
+            if out.startswith(b'<<'):
+                ctx.fail('host-exception:probe', dict(case, text=st0['probe']), 'probe raised %r' % out)
+            return
+        if hit and bx0 <= hit[0][0] <= bx1 and by0 <= hit[0][1] <= by1:
+            seed = [hit[0][0] - ox, hit[0][1] - oy]
+            ctx.count('probe:pixel')
+        else:
+            seed = [bx0 - ox - 1, by0 - oy]       # nothing drawn: the point is outside the viewport
+            ctx.count('probe:outside')
+        case = dict(case, steps=[dict(st0, seed=seed)] + case['steps'][1:])
+        r.clear()
+        # VIEW puts the last point (what STEP refers to) back to the middle of the viewport
+        r.set_window(None)
+        r.set_view(case['view'])
+        r.set_window(case.get('window'))
+    r.put(ax, ay, pic, with_pset=case.get('pset', False))
     zero = bytes(r.W)
     tag = '%s/%d' % (r.video, r.mode)
     for k, st in enumerate(case['steps']):
@@ -386,6 +433,10 @@ def run_case(ctx, r, case, lines, cases, outs, iters_lines):
         # the model sees `0` outside the rectangle: true for the first step, checked for the later ones
         uniform = all((row == zero) if not (ay <= y < ay + h) else
                       (row[:ax] == zero[:ax] and row[ax + w:] == zero[ax + w:]) for y, row in enumerate(before))
+        for pre in st.get('pre', []):
+            out = r.execute(pre)
+            if out.strip() or r.snapshot() != before:
+                raise RuntimeError('%r changed the picture: %r' % (pre, out))
         if st['how'] == 'step':
             px, py = st['last']
             out = r.execute('PSET (%d,%d),%d' % (px, py, before[py + oy][px + ox]))
@@ -608,6 +659,121 @@ def gen_case(rng, r, idx, allow_leak):
             'kinds': kind, 'steps': steps, 'pset': (w * h <= 60 and rng.random() < 0.25)}
 
 
+# ---------------------------------------------------------------------------------------------- seed coordinates
+
+FRACTIONS = [0.5, -0.5, 0.49, -0.49, 0.51, -0.51, 0.25, -0.25, 0.0]
+WINDOWS = [(0, 0, 1, 1), (-1, -1, 1, 1), (0, 0, 100, 50), (-3.5, 2, 8.25, 40), (10, 10, 11, 12), (0, 0, 639, 199)]
+
+
+def fnum(v):
+    s = ('%.4f' % v).rstrip('0').rstrip('.')
+    return s if s not in ('', '-', '-0') else '0'
+
+
+def rooms_picture(w, h, b, bg):
+    """one-pixel rooms at the even/even positions, walls everywhere else: a seed that is one pixel off hits a wall"""
+    return [[bg if (i % 2 == 0 and j % 2 == 0) else b for i in range(w)] for j in range(h)]
+
+
+def gen_coord_case(rng, r, idx, forced=None):
+    """PAINT with non-integer seed coordinates (exact halves, .49/.51, negative halves; literal, STEP offset or
+    single/double variables), without and with WINDOW / WINDOW SCREEN, under VIEW / VIEW SCREEN / no viewport.
+    The pixel the coordinates denote is asked from PSET with the same expression (run_case)."""
+    W, H, nattr = r.W, r.H, r.nattr
+    b = nattr - 1 if rng.random() < 0.5 else rng.randrange(1, nattr)
+    f = rng.choice([a for a in range(1, nattr) if a != b] or [b])
+    forced = forced or {}
+    wk = forced.get('wk', rng.choice(['none', 'none', 'window', 'screen']))
+    vk = forced.get('vk', rng.choice(['rel', 'abs', 'none']) if wk == 'none' else rng.choice(['rel', 'abs']))
+    w, h = rng.randint(5, 21), rng.randint(5, 13)
+    ax, ay = rng.choice([(0, 0), (rng.randint(0, W - w), rng.randint(0, H - h)), (2 * rng.randint(0, (W - w) // 2), 2 * rng.randint(0, (H - h) // 2))])
+    bg = 0 if b != 0 else 1
+    pk = forced.get('pk', rng.choice(['rooms', 'rooms', 'other']))
+    if pk == 'rooms':
+        pic, kind = rooms_picture(w, h, b, bg), 'rooms'
+    else:
+        pic, kind = gen_picture(rng, w, h, b, f, nattr)
+        kind = kind.split('+')[0]
+    if vk == 'none':
+        view = None
+        if kind != 'rooms':
+            frame(pic, b, ''.join(c for c, on_edge in (('t', ay == 0), ('b', ay + h == H), ('l', ax == 0),
+                                                          ('r', ax + w == W)) if not on_edge))
+        off = (0, 0)
+    else:
+        view = [ax, ay, ax + w - 1, ay + h - 1, vk == 'abs']
+        off = (0, 0) if vk == 'abs' else (ax, ay)
+    # target pixel in viewport coordinates (for the rooms picture: mostly a room)
+    ti, tj = rng.randrange(w), rng.randrange(h)
+    if kind == 'rooms' and rng.random() < 0.85:
+        ti, tj = ti - ti % 2, tj - tj % 2
+    tx, ty = ax + ti - off[0], ay + tj - off[1]
+    window = None
+    pre = []
+    how = forced.get('how', rng.choice(['lit', 'lit', 'lit', 'step', 'var']))
+    if wk == 'none':
+        dx, dy = forced.get('d', (rng.choice(FRACTIONS), rng.choice(FRACTIONS)))
+        cx, cy = tx + dx, ty + dy
+        if how == 'step':
+            # an offset from the last point, which VIEW has put in the middle of the viewport
+            k = forced.get('k', (rng.randint(-4, 4), rng.randint(-3, 3)))
+            cx, cy = k[0] + dx, k[1] + dy
+    else:
+        l0, t0, l1, t1 = forced.get('win', rng.choice(WINDOWS + [(round(rng.uniform(-50, 50), 2), round(rng.uniform(-50, 50), 2),
+                                                                   round(rng.uniform(60, 400), 2), round(rng.uniform(60, 400), 2))]))
+        window = 'WINDOW %s(%s,%s)-(%s,%s)' % ('SCREEN ' if wk == 'screen' else '', fnum(l0), fnum(t0), fnum(l1), fnum(t1))
+        # logical coordinates of (roughly) the target pixel, plus a fraction of a pixel
+        u = (ti + rng.choice(FRACTIONS)) / float(max(1, w - 1))
+        v = (tj + rng.choice(FRACTIONS)) / float(max(1, h - 1))
+        if wk == 'window':
+            v = 1 - v
+        cx, cy = l0 + u * (l1 - l0), t0 + v * (t1 - t0)
+        if how == 'step':
+            # a logical offset from the last point (the middle of the viewport); PSET STEP tells which pixel that is
+            cx, cy = (l1 - l0) * rng.choice([0.0, 0.013, 0.1, -0.07]), (t1 - t0) * rng.choice([0.0, 0.021, 0.09, -0.05])
+    if how == 'var':
+        xs, ys = rng.choice([('X!', 'Y!'), ('X#', 'Y#'), ('X!', 'Y#')])
+        pre = pre + ['%s=%s:%s=%s' % (xs, fnum(cx), ys, fnum(cy))]
+        coord = '(%s,%s)' % (xs, ys)
+    else:
+        coord = '%s(%s,%s)' % ('STEP ' if how == 'step' else '', fnum(cx), fnum(cy))
+    st = {'seed': None, 'fill': f, 'border': b, 'kind': 'solid', 'how': 'coord-' + how, 'pre': pre,
+          'text': 'PAINT %s,%d,%d' % (coord, f, b), 'probe': 'PSET %s,1' % coord}
+    return {'id': 'c%d' % idx, 'video': r.video, 'mode': r.mode, 'apage': r.apage, 'view': view, 'window': window,
+            'rect': [ax, ay, w, h], 'pix': ''.join(bytes(row).hex() for row in pic), 'kind': kind,
+            'kinds': kind + '+coord', 'steps': [st], 'pset': False}
+
+
+def coord_part(ctx, r, n):
+    """the statement family must agree on the coordinate -> pixel mapping: PAINT fills the region of the pixel
+    that PSET addresses for the same coordinate expression"""
+    rng = ctx.rng
+    lines, cases, outs, iters = [], [], [], []
+    # a deterministic family first: every fraction in x and in y on the rooms picture, every statement form,
+    # and fractional logical coordinates under the fixed windows
+    forced = []
+    for d in FRACTIONS:
+        forced.append({'wk': 'none', 'pk': 'rooms', 'd': (d, 0.0), 'how': 'lit'})
+        forced.append({'wk': 'none', 'pk': 'rooms', 'd': (0.0, d), 'how': 'var'})
+        forced.append({'wk': 'none', 'pk': 'rooms', 'd': (d, d), 'how': 'step', 'k': (2, -2)})
+    for win in WINDOWS:
+        forced.append({'wk': 'screen', 'win': win, 'how': 'lit'})
+        forced.append({'wk': 'window', 'win': win, 'how': 'lit'})
+    for i in range(n):
+        if r.dead:
+            return
+        case = gen_coord_case(rng, r, i, forced[i] if i < len(forced) else None)
+        ctx.count('coord:%s/%s' % ('window' if case['window'] else 'plain', case['steps'][0]['how']))
+        if i in (0, len(forced)):
+            ctx.sample({'config': '%s SCREEN %d' % (r.video, r.mode), 'view': case['view'], 'window': case['window'],
+                        'statements': case['steps'][0]['pre'] + [case['steps'][0]['text']],
+                        'probe': case['steps'][0]['probe']})
+        run_case(ctx, r, case, lines, cases, outs, iters)
+    ctx.compare(cases, outs, lines, label='coord %s/%d' % (r.video, r.mode))
+    check_iters(ctx, iters)
+    r.set_window(None)
+
+
 # ---------------------------------------------------------------------------------------------- exhaustive part
 
 def exhaustive(ctx, r, w, h, seeds_of, label):
@@ -735,6 +901,12 @@ def config_part(ctx, video, mode, apage, n_cases, ex_small):
             run_case(ctx, r, case, lines, cases, outs, iters)
         ctx.compare(cases, outs, lines, label='%s/%d' % (video, mode))
         check_iters(ctx, iters)
+        if r.dead:
+            r = Runner(video, mode, apage)
+        if r.nattr >= 4 and mode != 9:
+            coord_part(ctx, r, 110 if ctx.quick else 700)
+        elif not ctx.quick:
+            coord_part(ctx, r, 250)
         if ex_small:
             ex_small(ctx, r)
     finally:
